@@ -72,9 +72,9 @@ pub struct Live {
 
 /// Opens a fresh database over a copy of the preloaded content (gate off).
 pub fn open_live(idx: Idx) -> Live {
+    let pre = preloaded(idx);
     install_env();
     anda_db_utils::verif::set_clock(Some((1_750_000_000_000, 1)));
-    let pre = preloaded(idx);
     let (cs, ctl) = CtlStore::over(ctlstore::restore(&pre.content));
     let fx = util::block_on(Fixture::open(cs.clone(), idx)).expect("open preloaded");
     Live { cs, ctl, fx }
